@@ -248,9 +248,9 @@ func init() {
 }
 
 func c16run(r *ev.Run) {
-	sets := []boundSet{{"struct<=1 x every gap that may hold whitespace x 16 substitutions", []int{1, 0, 0}}}
+	sets := []boundSet{{"struct<=2 x every gap that may hold whitespace x 22 substitutions", []int{2, 0, 0}}}
 	if thorough(r) {
-		sets = []boundSet{{"struct<=3 x every gap that may hold whitespace x 16 substitutions", []int{3, 0, 0}}}
+		sets = []boundSet{{"struct<=3 x every gap that may hold whitespace x 22 substitutions", []int{3, 0, 0}}}
 	}
 	runGrammar(r, sets, c16gapBody)
 	// statement separation
